@@ -232,7 +232,7 @@ func requireBurst(r *vlib.Run) {
 
 func requireFull(r *vlib.Run) {
 	for k, v := range map[string]int64{
-		"full_cases": 10, "full_q_total": 100, "full_failures_upstream": 15, "full_zone_failures_recorded": 12,
+		"full_cases": 14, "full_q_total": 200, "full_failures_upstream": 15, "full_zone_failures_recorded": 12,
 		"full_q_suppressed": 15, "full_suppressed_by_zone_state": 12, "full_suppressed_by_dead_zone_state": 1,
 		"full_must_reach_checks": 60, "full_must_reach_held": 50, "full_probes_after_expiry": 6,
 		"full_probes_after_reset": 2, "full_useful_answers_resetting_state": 1,
@@ -244,6 +244,23 @@ func requireFull(r *vlib.Run) {
 		"full_client_left_while_parked_at_authority": 2, "full_client_left_during_ns_address_lookup": 1,
 		"full_enrichment_failures_observed": 1, "full_local_followup_enrichment": 1,
 		"full_shed_nsaddr_struck": 1, "full_local_followup_shed-ns-address": 2,
+		// scenario lame: zones with 2..6 server addresses, k failing (rcode / silent), h healthy; the healthy
+		// reply is the last thing the resolver hears
+		"full_scenario_lame": 2, "full_lame_zones": 10, "full_lame_allfail_zones": 2, "full_lame_zones_multi_host": 2,
+		"full_lame_zones_multi_address_host": 2, "full_lame_partly_queries": 20, "full_lame_partly_answered": 18,
+		"full_lame_partly_no_zone_state": 18, "full_lame_gated_requests": 15, "full_lame_gate_all-failures-sent": 12,
+		"full_lame_healthy_reply_after_every_failure_reply": 12, "full_lame_healthy_reply_after_3plus_failure_replies": 6,
+		// scenario cdfail: question failures from resolver errors that are not zone failures, dnssec on and off,
+		// CD=0 first and the mirror image; white-box filing + the other CD value reaching the authorities
+		"full_scenario_cdfail": 2, "full_cdfail_first_failed": 18, "full_cdfail_no_zone_state": 18,
+		"full_cdfail_first_failed_dnssec_off_cd0": 4, "full_cdfail_first_failed_dnssec_off_cd1": 4,
+		"full_cdfail_first_failed_dnssec_on_cd0": 4, "full_cdfail_first_failed_dnssec_on_cd1": 4,
+		"full_cdfail_filed_under_asked_cd_dnssec_off_cd0": 4, "full_cdfail_filed_under_asked_cd_dnssec_off_cd1": 4,
+		"full_cdfail_filed_under_asked_cd_dnssec_on_cd0": 4, "full_cdfail_filed_under_asked_cd_dnssec_on_cd1": 4,
+		"full_cdfail_other_cd_reached_upstream_dnssec_off_cd0": 4, "full_cdfail_other_cd_reached_upstream_dnssec_off_cd1": 4,
+		"full_cdfail_other_cd_reached_upstream_dnssec_on_cd0": 4, "full_cdfail_other_cd_reached_upstream_dnssec_on_cd1": 4,
+		"full_nearmiss_cd": 18, "full_cdfail_same_cd_suppressed": 12, "full_cdfail_error_delegation-loop": 10,
+		"full_cdfail_error_max-depth": 1, "full_cdfail_variant_bogus": 1,
 	} {
 		r.Require(k, v)
 	}
